@@ -260,3 +260,31 @@ func HStrLongT(form int, L int, post int) {
 	vAssert(t.val == s[len(pre):len(pre)+vClip(wantLen)], "token value is the content")
 	vCover("checked")
 }
+
+// HStrSecond: a literal tokenised into a slot that already held another (closed) literal: the second token of
+// pre + free bytes, where pre is a closed literal of each form and the free part opens with ' " or `.
+func HStrSecond(n int, first int) {
+	pre := [...]string{"'a' ", "\"a\" ", "q'!a!' ", "$$a$$ ", "u&'a' ", "`a` ", "@'a' ", "1 "}[first]
+	s := pre + vNondetString(n)
+	d := vByteIn("'\"`")
+	o := len(pre)
+	vAssume(s[o] == d)
+	st := new(sqliState)
+	sqliInit(st, s, sqliFlagQuoteNone|sqliFlagSQLAnsi)
+	vAssert(st.tokenize(), "first token is produced")
+	vAssert(st.current.strClose != 0 || first == 7, "first literal is closed")
+	vAssert(st.tokenize(), "second token is produced")
+	t := st.current
+	clen, closed, snext := specQuoted(s, o+1, d)
+	vAssert(t.pos == o+1, "content offset")
+	vAssert(t.len == vClip(clen), "content length ends at the first real terminator")
+	if closed {
+		vAssert(t.strClose == d, "closed flag")
+	} else {
+		vAssert(t.strClose == 0, "unclosed literal has no close mark")
+	}
+	vAssert(t.strOpen == d, "open mark")
+	vAssert(st.pos == snext, "resume offset right after the terminator")
+	vAssert(t.val == s[o+1:o+1+vClip(clen)], "token value is the content")
+	vCover("checked")
+}
